@@ -263,7 +263,10 @@ Section HInv.
   Variable sh : shuffles.
   Variable p : string.
   Variable P : hst -> Prop.
-  Hypothesis P_reg : forall r s, n_peer (r_node r) = p -> P s -> P (do_reg r s).
+  (* Q: a property of the service rows of the snapshot being processed *)
+  Variable Q : svc -> Prop.
+  Hypothesis P_reg : forall r s, n_peer (r_node r) = p -> (forall sv, r_svc r = Some sv -> Q sv) ->
+                                 P s -> P (do_reg r s).
   Hypothesis P_dereg : forall d s, op_peer (ODereg d) = p -> P s -> P (do_dereg d s).
   Hypothesis P_err : forall s e, P s -> P (HSt (h_cat s) (h_ops s) (Some e)).
 
@@ -274,15 +277,21 @@ Section HInv.
     apply IH; [intros; apply H; cbn; auto|]. apply H; cbn; auto.
   Qed.
 
-  Lemma node_block_inv stored x s : n_peer (ns_node x) = p -> P s -> P (node_block sh stored x s).
+  Hypothesis sh_ok : shuffles_ok sh.
+
+  Lemma node_block_inv stored x s :
+    n_peer (ns_node x) = p -> (forall y, In y (ns_svcs x) -> Q (ss_svc y)) -> P s -> P (node_block sh stored x s).
   Proof.
-    intros Hx Hs. unfold node_block.
+    intros Hx HQ Hs. unfold node_block.
+    assert (Hnone : forall sv : svc, @None svc = Some sv -> Q sv) by (intros; discriminate).
     set (s1 := if node_changed stored (ns_node x) then _ else s).
     assert (H1 : P s1) by (subst s1; destruct (node_changed stored (ns_node x)); auto).
     set (s2 := fold_left _ (sh_svcs sh (ns_svcs x)) s1).
     assert (H2 : P s2).
-    { subst s2. apply fold_inv; [|exact H1]. intros s' y _ Hs'.
-      destruct (svc_changed stored (ns_node x) (ss_svc y)); auto. }
+    { subst s2. apply fold_inv; [|exact H1]. intros s' y Hy Hs'.
+      destruct (svc_changed stored (ns_node x) (ss_svc y)); [|exact Hs'].
+      apply P_reg; [exact Hx | | exact Hs']. cbn [r_svc]. intros sv E. injection E as <-. apply HQ.
+      destruct sh_ok as (_ & Hsv & _). apply (Permutation_in _ (Hsv _)). exact Hy. }
     destruct (sh_chks sh _); auto.
   Qed.
 
@@ -308,19 +317,22 @@ Section HInv.
     destruct (node_has_services (h_cat s) p n); [exact Hs|]. apply P_dereg; [reflexivity|exact Hs].
   Qed.
 
-  Hypothesis sh_ok : shuffles_ok sh.
-
-  Lemma handle_update_from_inv s0 sn export : P s0 -> P (handle_update_from sh s0 p sn export).
+  Lemma handle_update_from_inv s0 sn export :
+    (forall x y, In x (new_health_snapshot p (match export with Some l => l | None => [] end)) ->
+                 In y (ns_svcs x) -> Q (ss_svc y)) ->
+    P s0 -> P (handle_update_from sh s0 p sn export).
   Proof.
-    intros H0. unfold handle_update_from. destruct (h_err s0); [exact H0|].
+    intros HQ H0. unfold handle_update_from. destruct (h_err s0); [exact H0|].
     destruct (check_service_nodes (h_cat s0) p sn) as [stored|e]; [|apply P_err; exact H0].
     set (h := new_health_snapshot p _).
     set (s1 := fold_left _ (sh_nodes sh h) s0).
     assert (H1 : P s1).
-    { subst s1. apply fold_inv; [|exact H0]. intros s x Hx Hs. apply node_block_inv; [|exact Hs].
+    { subst s1. apply fold_inv; [|exact H0]. intros s x Hx Hs.
       destruct sh_ok as (Hn & _). apply (Permutation_in _ (Hn h)) in Hx.
-      pose proof (nhs_node_peer p (match export with Some l => l | None => [] end)) as Hf.
-      rewrite Forall_forall in Hf. apply Hf. exact Hx. }
+      apply node_block_inv; [| |exact Hs].
+      - pose proof (nhs_node_peer p (match export with Some l => l | None => [] end)) as Hf.
+        rewrite Forall_forall in Hf. apply Hf. exact Hx.
+      - intros y Hy. apply (HQ x y Hx Hy). }
     set (a := fold_left (stored_block p h) stored (P2 s1 [] [])).
     assert (Ha : P (p2_st a)) by (subst a; apply stored_blocks_inv; exact H1).
     set (s2 := fold_left _ (sh_dnc sh (p2_dnc a)) (p2_st a)).
@@ -333,20 +345,68 @@ Section HInv.
   Proof.
     intros H0. unfold handle_exported_list. apply fold_inv; [|exact H0].
     intros s sn _ Hs. destruct (existsb (seqb sn) (exported_set names)); [exact Hs|].
-    apply handle_update_from_inv. exact Hs.
+    apply handle_update_from_inv; [|exact Hs]. intros x y [].
   Qed.
 End HInv.
 
-Lemma handle_inv sh e (P : hst -> Prop) c :
+(* the service rows of the handler's snapshot are the received ones, stamped *)
+(* (entries keep their service record when checks are merged into them: compare by ss_svc) *)
+Lemma svc_upsert_svcs i l y :
+  In y (svc_upsert i l) -> (exists z, In z l /\ ss_svc y = ss_svc z) \/ ss_svc y = i_svc i.
+Proof.
+  induction l as [|z l IH]; cbn [svc_upsert]; [intros [<-|[]]; right; reflexivity|].
+  destruct (seqb (s_id (ss_svc z)) (s_id (i_svc i))).
+  - intros [<-|H]; left; [exists z; split; [left; reflexivity|reflexivity] | exists y; split; [right; exact H|reflexivity]].
+  - intros [<-|H]; [left; exists y; split; [left; reflexivity|reflexivity]|].
+    destruct (IH H) as [(w & Hw & E)|A]; [left; exists w; split; [right; exact Hw|exact E] | right; exact A].
+Qed.
+
+Lemma node_upsert_svcs (Q : svc -> Prop) i h :
+  Q (i_svc i) -> (forall x y, In x h -> In y (ns_svcs x) -> Q (ss_svc y)) ->
+  forall x y, In x (node_upsert i h) -> In y (ns_svcs x) -> Q (ss_svc y).
+Proof.
+  intros Hi. induction h as [|z h IH]; intros Hh x y; cbn [node_upsert].
+  - intros [<-|[]]. cbn [ns_svcs svc_upsert]. intros [<-|[]]. exact Hi.
+  - destruct (seqb (n_name (ns_node z)) (n_name (i_node i))).
+    + intros [<-|Hx] Hy.
+      * cbn [ns_svcs] in Hy. destruct (svc_upsert_svcs i (ns_svcs z) y Hy) as [(w & Hw & E)|E]; rewrite E; [|exact Hi].
+        apply (Hh z w); [left; reflexivity | exact Hw].
+      * apply (Hh x y); [right; exact Hx | exact Hy].
+    + intros [<-|Hx] Hy.
+      * apply (Hh x y); [left; reflexivity | exact Hy].
+      * apply IH with (x := x); auto. intros x' y' Hx' Hy'. apply (Hh x' y'); [right; exact Hx' | exact Hy'].
+Qed.
+
+Lemma nhs_svcs (Q : svc -> Prop) p all :
+  (forall i, In i all -> Q (i_svc (inst_set_peer p i))) ->
+  forall x y, In x (new_health_snapshot p all) -> In y (ns_svcs x) -> Q (ss_svc y).
+Proof.
+  unfold new_health_snapshot. intros Hall.
+  assert (G : forall l h, (forall i, In i l -> Q (i_svc (inst_set_peer p i))) ->
+                          (forall x y, In x h -> In y (ns_svcs x) -> Q (ss_svc y)) ->
+                          forall x y, In x (fold_left (fun h i => node_upsert (inst_set_peer p i) h) l h) ->
+                                      In y (ns_svcs x) -> Q (ss_svc y)).
+  { induction l as [|i l IH]; intros h Hl Hh; cbn [fold_left]; [exact Hh|].
+    apply IH; [intros j Hj; apply Hl; right; exact Hj|].
+    apply node_upsert_svcs; [apply Hl; left; reflexivity | exact Hh]. }
+  apply G; [exact Hall | intros x y []].
+Qed.
+
+Lemma handle_inv sh e (P : hst -> Prop) (Q : svc -> Prop) c :
   shuffles_ok sh ->
-  (forall r s, n_peer (r_node r) = ev_peer e -> P s -> P (do_reg r s)) ->
+  (forall r s, n_peer (r_node r) = ev_peer e -> (forall sv, r_svc r = Some sv -> Q sv) -> P s -> P (do_reg r s)) ->
   (forall d s, op_peer (ODereg d) = ev_peer e -> P s -> P (do_dereg d s)) ->
   (forall s err, P s -> P (HSt (h_cat s) (h_ops s) (Some err))) ->
+  match e with
+  | EvUpsert p _ export => forall i, In i export -> Q (i_svc (inst_set_peer p i))
+  | EvList _ _ => True
+  end ->
   P (HSt c [] None) -> P (handle sh c e).
 Proof.
-  intros Hsh Hr Hd He H0. destruct e as [p sn export|p names]; cbn [handle ev_peer] in *.
-  - unfold handle_update_service. apply handle_update_from_inv; auto.
-  - apply handle_exported_list_inv; auto.
+  intros Hsh Hr Hd He HQ H0. destruct e as [p sn export|p names]; cbn [handle ev_peer] in *.
+  - unfold handle_update_service. apply (handle_update_from_inv sh p P Q); auto.
+    cbn. apply nhs_svcs. exact HQ.
+  - apply (handle_exported_list_inv sh p P Q); auto.
 Qed.
 
 (* ------------------------------------------------------------------ the three invariants *)
@@ -371,17 +431,19 @@ Qed.
 Lemma handle_frame sh c e q :
   shuffles_ok sh -> ev_peer e <> q -> same_rows q c (h_cat (handle sh c e)).
 Proof.
-  intros Hsh Hq. apply (handle_inv sh e (hst_frame q c)); auto.
-  - intros r s Hr. apply do_reg_frame. congruence.
+  intros Hsh Hq. apply (handle_inv sh e (hst_frame q c) (fun _ => True)); auto.
+  - intros r s Hr _. apply do_reg_frame. congruence.
   - intros d s Hd. apply do_dereg_frame. congruence.
+  - destruct e; auto.
   - apply same_rows_refl.
 Qed.
 
 Lemma handle_ops_peer sh c e :
   shuffles_ok sh -> Forall (fun o => op_peer o = ev_peer e) (h_ops (handle sh c e)).
 Proof.
-  intros Hsh. apply (handle_inv sh e (hst_peer (ev_peer e))); auto.
-  - intros r s Hr Hs. unfold hst_peer, do_reg in *. destruct (h_err s); [exact Hs|].
+  intros Hsh. apply (handle_inv sh e (hst_peer (ev_peer e)) (fun _ => True)); auto.
+  3: destruct e; auto.
+  - intros r s Hr _ Hs. unfold hst_peer, do_reg in *. destruct (h_err s); [exact Hs|].
     destruct (register (h_cat s) r); cbn; constructor; auto.
   - intros d s Hd Hs. unfold hst_peer, do_dereg in *. destruct (h_err s); [exact Hs|].
     cbn; constructor; auto.
@@ -394,8 +456,9 @@ Proof. unfold apply_ops. rewrite fold_left_app. reflexivity. Qed.
 Lemma handle_replay sh c e :
   shuffles_ok sh -> apply_ops (rev (h_ops (handle sh c e))) c = h_cat (handle sh c e).
 Proof.
-  intros Hsh. apply (handle_inv sh e (hst_replay c)); auto.
-  - intros r s _ Hs. unfold hst_replay, do_reg in *. destruct (h_err s); [exact Hs|].
+  intros Hsh. apply (handle_inv sh e (hst_replay c) (fun _ => True)); auto.
+  3: destruct e; auto.
+  - intros r s _ _ Hs. unfold hst_replay, do_reg in *. destruct (h_err s); [exact Hs|].
     destruct (register (h_cat s) r) as [c'|err] eqn:E; cbn [h_ops h_cat rev];
       rewrite apply_ops_snoc, Hs; cbn [apply_op]; rewrite E; reflexivity.
   - intros d s _ Hs. unfold hst_replay, do_dereg in *. destruct (h_err s); [exact Hs|].
